@@ -41,11 +41,17 @@ pub fn monitor(out: &RunOut) -> MonOut {
         let mut reboot_questions_in_wait = 0usize;
         let mut prev_question_idx = 0usize;
         let mut used_req = vec![false; reqs.len()];
+        // the policy refused the check that the last wait led to: the next thing is the policy's
+        // next-time question, not a wait of the machine's own
+        let mut refused_at: Option<usize> = None;
         for i in l.start..l.end {
             let site = format!("L{}@{}", l.life, i);
             let in_wait = waits.iter().any(|w| i > w.start && i < w.end);
             match &h[i].kind {
                 Kind::Policy(PolicyRec::ComputeNext { answer, .. }) => {
+                    if refused_at.take().is_some() {
+                        m.count("R1.waits_after_a_refused_check");
+                    }
                     // arming is judged when the wait ends
                     expect = Some((i, answer.clone()));
                     announced = false;
@@ -68,6 +74,9 @@ pub fn monitor(out: &RunOut) -> MonOut {
                     if in_wait && *arg == TimerArg::For(1_800_000_000_000) {
                         reboot_timer = Some((*id, false));
                         continue;
+                    }
+                    if let Some(at) = refused_at {
+                        m.viol(p, "R1", &site, format!("timer armed for {:?} after the policy refused the check at #{at}, before the policy was asked for the next time", arg));
                     }
                     if let Some((_, t)) = &expect {
                         if !announced {
@@ -94,7 +103,10 @@ pub fn monitor(out: &RunOut) -> MonOut {
                         }
                     }
                 }
-                Kind::Policy(PolicyRec::CheckAllowed { .. }) => {
+                Kind::Policy(PolicyRec::CheckAllowed { answer, .. }) => {
+                    if !in_wait && answer.params().is_none() {
+                        refused_at = Some(i);
+                    }
                     // the wait that ends here
                     if let Some((at, t)) = expect.take() {
                         m.count("R1.waits");
